@@ -2476,20 +2476,27 @@ class XonshParser(Parser):
         return None
 
     def any_cmd(self) -> Any | None:
-        # any_cmd: cmd_name | WS | KEYWORD
+        # any_cmd: cmd_name | WS | KEYWORD | SEARCH_PATH | FSTRING_START | FSTRING_MIDDLE | FSTRING_END
         return self.seq_alts(
             self.cmd_name,
             (self.token, "WS"),
             self.keyword,
+            (self.token, "SEARCH_PATH"),
+            (self.token, "FSTRING_START"),
+            (self.token, "FSTRING_MIDDLE"),
+            (self.token, "FSTRING_END"),
         )
 
     def cmd_group(self) -> Any | None:
-        # cmd_group: ('(' | '!(' | '$(') ((cmd_group | any_cmd))* ')' | ('[' | '![' | '$[') ((cmd_group | any_cmd))* ']'
+        # cmd_group: ('(' | '!(' | '$(') ((cmd_group | any_cmd))* ')' | ('[' | '![' | '$[') ((cmd_group | any_cmd))* ']' | ('{' | '${') ((cmd_group | any_cmd))* '}'
         mark = self._mark()
         if (a := self._tmp_38()) and (b := self.repeated(self._tmp_37),) and (c := self.expect(")")):
             return "".join((i if isinstance(i, str) else i.string for i in [a, *b, c]))
         self._reset(mark)
         if (a := self._tmp_40()) and (b := self.repeated(self._tmp_37),) and (c := self.expect("]")):
+            return "".join((i if isinstance(i, str) else i.string for i in [a, *b, c]))
+        self._reset(mark)
+        if (a := self._tmp_42()) and (b := self.repeated(self._tmp_37),) and (c := self.expect("}")):
             return "".join((i if isinstance(i, str) else i.string for i in [a, *b, c]))
         self._reset(mark)
         return None
@@ -2501,7 +2508,7 @@ class XonshParser(Parser):
         if (a := self.slice()) and (self.negative_lookahead(self.expect, ",")):
             return a
         self._reset(mark)
-        if (a := self.gathered(self._tmp_42, self.expect, ",")) and (self.expect(","),):
+        if (a := self.gathered(self._tmp_44, self.expect, ",")) and (self.expect(","),):
             return ast.Tuple(elts=a, ctx=Load, **self.span(_lnum, _col))
         self._reset(mark)
         return None
@@ -2514,7 +2521,7 @@ class XonshParser(Parser):
             (a := self.expression(),)
             and (self.expect(":"))
             and (b := self.expression(),)
-            and (c := self._tmp_43(),)
+            and (c := self._tmp_45(),)
         ):
             return ast.Slice(lower=a, upper=b, step=c, **self.span(_lnum, _col))
         self._reset(mark)
@@ -2542,20 +2549,20 @@ class XonshParser(Parser):
         if self.expect("None"):
             return ast.Constant(value=None, **self.span(_lnum, _col))
         self._reset(mark)
-        if (self.positive_lookahead(self._tmp_44)) and (strings := self.strings()):
+        if (self.positive_lookahead(self._tmp_46)) and (strings := self.strings()):
             return strings
         self._reset(mark)
         if a := self.token("NUMBER"):
             return ast.Constant(value=self._eval_string_token(a), **self.span(_lnum, _col))
         self._reset(mark)
-        if (self.positive_lookahead(self.expect, "(")) and (_tmp_45 := self._tmp_45()):
-            return _tmp_45
-        self._reset(mark)
-        if (self.positive_lookahead(self.expect, "[")) and (_tmp_46 := self._tmp_46()):
-            return _tmp_46
-        self._reset(mark)
-        if (self.positive_lookahead(self.expect, "{")) and (_tmp_47 := self._tmp_47()):
+        if (self.positive_lookahead(self.expect, "(")) and (_tmp_47 := self._tmp_47()):
             return _tmp_47
+        self._reset(mark)
+        if (self.positive_lookahead(self.expect, "[")) and (_tmp_48 := self._tmp_48()):
+            return _tmp_48
+        self._reset(mark)
+        if (self.positive_lookahead(self.expect, "{")) and (_tmp_49 := self._tmp_49()):
+            return _tmp_49
         self._reset(mark)
         if self.expect("..."):
             return ast.Constant(value=Ellipsis, **self.span(_lnum, _col))
@@ -2574,7 +2581,7 @@ class XonshParser(Parser):
     def group(self) -> Any | None:
         # group: '(' (yield_expr | named_expression) ')' | invalid_group
         mark = self._mark()
-        if (self.expect("(")) and (a := self._tmp_48()) and (self.expect(")")):
+        if (self.expect("(")) and (a := self._tmp_50()) and (self.expect(")")):
             return a
         self._reset(mark)
         if self.call_invalid_rules and (self.invalid_group()):
@@ -2839,7 +2846,7 @@ class XonshParser(Parser):
     def strings(self) -> Any | None:
         # strings: ((fstring | STRING))+
         mark = self._mark()
-        if a := self.repeated(self._tmp_49):
+        if a := self.repeated(self._tmp_51):
             return self.concatenate_strings(a)
         self._reset(mark)
         return None
@@ -2857,7 +2864,7 @@ class XonshParser(Parser):
         # ptuple: '(' [star_named_expression ',' star_named_expressions?] ')'
         mark = self._mark()
         _lnum, _col = self._tokenizer.peek().start
-        if (self.expect("(")) and (a := self._tmp_50(),) and (self.expect(")")):
+        if (self.expect("(")) and (a := self._tmp_52(),) and (self.expect(")")):
             return ast.Tuple(elts=a or [], ctx=Load, **self.span(_lnum, _col))
         self._reset(mark)
         return None
@@ -2936,7 +2943,7 @@ class XonshParser(Parser):
             and (self.expect("in"))
             and (cut := True)
             and (b := self.disjunction())
-            and (c := self.repeated(self._tmp_51),)
+            and (c := self.repeated(self._tmp_53),)
         ):
             return ast.comprehension(target=a, iter=b, ifs=c, is_async=1)
         self._reset(mark)
@@ -2949,7 +2956,7 @@ class XonshParser(Parser):
             and (self.expect("in"))
             and (cut := True)
             and (b := self.disjunction())
-            and (c := self.repeated(self._tmp_51),)
+            and (c := self.repeated(self._tmp_53),)
         ):
             return ast.comprehension(target=a, iter=b, ifs=c, is_async=0)
         self._reset(mark)
@@ -3000,7 +3007,7 @@ class XonshParser(Parser):
         _lnum, _col = self._tokenizer.peek().start
         if (
             (self.expect("("))
-            and (a := self._tmp_53())
+            and (a := self._tmp_55())
             and (b := self.for_if_clauses())
             and (self.expect(")"))
         ):
@@ -3015,7 +3022,7 @@ class XonshParser(Parser):
         # bare_genexp: (assignment_expression | expression !':=') for_if_clauses
         mark = self._mark()
         _lnum, _col = self._tokenizer.peek().start
-        if (a := self._tmp_53()) and (b := self.for_if_clauses()):
+        if (a := self._tmp_55()) and (b := self.for_if_clauses()):
             return ast.GeneratorExp(elt=a, generators=b, **self.span(_lnum, _col))
         self._reset(mark)
         return None
@@ -3052,7 +3059,7 @@ class XonshParser(Parser):
     def args(self) -> tuple[list, list] | None:
         # args: ','.(starred_expression | (assignment_expression | expression !':=') !'=')+ [',' kwargs] | kwargs
         mark = self._mark()
-        if (a := self.gathered(self._tmp_55, self.expect, ",")) and (b := self._tmp_56(),):
+        if (a := self.gathered(self._tmp_57, self.expect, ",")) and (b := self._tmp_58(),):
             return (
                 a + ([e for e in b if isinstance(e, ast.Starred)] if b else []),
                 [e for e in b if not isinstance(e, ast.Starred)] if b else [],
@@ -3133,7 +3140,7 @@ class XonshParser(Parser):
         if (a := self.star_target()) and (self.negative_lookahead(self.expect, ",")):
             return a
         self._reset(mark)
-        if (a := self.star_target()) and (b := self.repeated(self._tmp_57),) and (self.expect(","),):
+        if (a := self.star_target()) and (b := self.repeated(self._tmp_59),) and (self.expect(","),):
             return ast.Tuple(elts=[a] + b, ctx=Store, **self.span(_lnum, _col))
         self._reset(mark)
         return None
@@ -3149,7 +3156,7 @@ class XonshParser(Parser):
     def star_targets_tuple_seq(self) -> list | None:
         # star_targets_tuple_seq: star_target ((',' star_target))+ ','? | star_target ','
         mark = self._mark()
-        if (a := self.star_target()) and (b := self.repeated(self._tmp_57)) and (self.expect(","),):
+        if (a := self.star_target()) and (b := self.repeated(self._tmp_59)) and (self.expect(","),):
             return [a] + b
         self._reset(mark)
         if (a := self.star_target()) and (self.expect(",")):
@@ -3162,7 +3169,7 @@ class XonshParser(Parser):
         # star_target: '*' (!'*' star_target) | target_with_star_atom
         mark = self._mark()
         _lnum, _col = self._tokenizer.peek().start
-        if (self.expect("*")) and (a := self._tmp_59()):
+        if (self.expect("*")) and (a := self._tmp_61()):
             return ast.Starred(value=self.set_expr_context(a, Store), ctx=Store, **self.span(_lnum, _col))
         self._reset(mark)
         if target_with_star_atom := self.target_with_star_atom():
@@ -3367,7 +3374,7 @@ class XonshParser(Parser):
         if (
             (self.token("NEWLINE"))
             and (t := self.token("TYPE_COMMENT"))
-            and (self.positive_lookahead(self._tmp_60))
+            and (self.positive_lookahead(self._tmp_62))
         ):
             return t.string
         self._reset(mark)
@@ -3392,7 +3399,7 @@ class XonshParser(Parser):
             (a := self.expression())
             and (b := self.for_if_clauses())
             and (self.expect(","))
-            and (self._tmp_61(),)
+            and (self._tmp_63(),)
         ):
             return self.raise_syntax_error_known_range(
                 "Generator expression must be parenthesized", a, b[-1].ifs[-1] if b[-1].ifs else b[-1].iter
@@ -3404,10 +3411,10 @@ class XonshParser(Parser):
             )
         self._reset(mark)
         if (
-            (self._tmp_62(),)
+            (self._tmp_64(),)
             and (a := self.name())
             and (b := self.expect("="))
-            and (self.positive_lookahead(self._tmp_63))
+            and (self.positive_lookahead(self._tmp_65))
         ):
             return self.raise_syntax_error_known_range("expected argument value expression", a, b)
         self._reset(mark)
@@ -3439,7 +3446,7 @@ class XonshParser(Parser):
     def invalid_kwarg(self) -> None:
         # invalid_kwarg: ('True' | 'False' | 'None') '=' | NAME '=' expression for_if_clauses | !(NAME '=') expression '=' | '**' expression '=' expression
         mark = self._mark()
-        if (a := self._tmp_64()) and (b := self.expect("=")):
+        if (a := self._tmp_66()) and (b := self.expect("=")):
             return self.raise_syntax_error_known_range(f"cannot assign to {a.string}", a, b)
         self._reset(mark)
         if (a := self.name()) and (b := self.expect("=")) and (self.expression()) and (self.for_if_clauses()):
@@ -3447,7 +3454,7 @@ class XonshParser(Parser):
                 "invalid syntax. Maybe you meant '==' or ':=' instead of '='?", a, b
             )
         self._reset(mark)
-        if (self.negative_lookahead(self._tmp_65)) and (a := self.expression()) and (b := self.expect("=")):
+        if (self.negative_lookahead(self._tmp_67)) and (a := self.expression()) and (b := self.expect("=")):
             return self.raise_syntax_error_known_range(
                 'expression cannot contain assignment, perhaps you meant "=="?', a, b
             )
@@ -3511,7 +3518,7 @@ class XonshParser(Parser):
         # invalid_expression: !(NAME STRING | SOFT_KEYWORD) disjunction expression_without_invalid | disjunction 'if' disjunction !('else' | ':') | 'lambda' lambda_params? ':' &(FSTRING_MIDDLE | fstring_replacement_field)
         mark = self._mark()
         if (
-            (self.negative_lookahead(self._tmp_66))
+            (self.negative_lookahead(self._tmp_68))
             and (a := self.disjunction())
             and (b := self.expression_without_invalid())
         ):
@@ -3525,7 +3532,7 @@ class XonshParser(Parser):
             (a := self.disjunction())
             and (self.expect("if"))
             and (b := self.disjunction())
-            and (self.negative_lookahead(self._tmp_67))
+            and (self.negative_lookahead(self._tmp_69))
         ):
             return self.raise_syntax_error_known_range("expected 'else' after 'if' expression", a, b)
         self._reset(mark)
@@ -3533,7 +3540,7 @@ class XonshParser(Parser):
             (a := self.expect("lambda"))
             and (self.lambda_params(),)
             and (b := self.expect(":"))
-            and (self.positive_lookahead(self._tmp_68))
+            and (self.positive_lookahead(self._tmp_70))
         ):
             return self.raise_syntax_error_known_range(
                 "f-string: lambda expressions are not allowed without parentheses", a, b
@@ -3553,7 +3560,7 @@ class XonshParser(Parser):
             (a := self.name())
             and (self.expect("="))
             and (b := self.bitwise_or())
-            and (self.negative_lookahead(self._tmp_69))
+            and (self.negative_lookahead(self._tmp_71))
         ):
             return (
                 None
@@ -3564,11 +3571,11 @@ class XonshParser(Parser):
             )
         self._reset(mark)
         if (
-            (self.negative_lookahead(self._tmp_70))
+            (self.negative_lookahead(self._tmp_72))
             and (a := self.bitwise_or())
             and (self.expect("="))
             and (self.bitwise_or())
-            and (self.negative_lookahead(self._tmp_69))
+            and (self.negative_lookahead(self._tmp_71))
         ):
             return (
                 None
@@ -3607,10 +3614,10 @@ class XonshParser(Parser):
         if (a := self.expression()) and (self.expect(":")) and (self.expression()):
             return self.raise_syntax_error_known_location("illegal target for annotation", a)
         self._reset(mark)
-        if (self.repeated(self._tmp_72),) and (a := self.star_expressions()) and (self.expect("=")):
+        if (self.repeated(self._tmp_74),) and (a := self.star_expressions()) and (self.expect("=")):
             return self.raise_syntax_error_invalid_target(Target.STAR_TARGETS, a)
         self._reset(mark)
-        if (self.repeated(self._tmp_72),) and (a := self.yield_expr()) and (self.expect("=")):
+        if (self.repeated(self._tmp_74),) and (a := self.yield_expr()) and (self.expect("=")):
             return self.raise_syntax_error_known_location("assignment to yield expression not possible", a)
         self._reset(mark)
         if (a := self.star_expressions()) and (self.augassign()) and (self.annotated_rhs()):
@@ -3658,13 +3665,13 @@ class XonshParser(Parser):
     def invalid_comprehension(self) -> None:
         # invalid_comprehension: ('[' | '(' | '{') starred_expression for_if_clauses | ('[' | '{') star_named_expression ',' star_named_expressions for_if_clauses | ('[' | '{') star_named_expression ',' for_if_clauses
         mark = self._mark()
-        if (self._tmp_74()) and (a := self.starred_expression()) and (self.for_if_clauses()):
+        if (self._tmp_76()) and (a := self.starred_expression()) and (self.for_if_clauses()):
             return self.raise_syntax_error_known_location(
                 "iterable unpacking cannot be used in comprehension", a
             )
         self._reset(mark)
         if (
-            (self._tmp_75())
+            (self._tmp_77())
             and (a := self.star_named_expression())
             and (self.expect(","))
             and (b := self.star_named_expressions())
@@ -3675,7 +3682,7 @@ class XonshParser(Parser):
             )
         self._reset(mark)
         if (
-            (self._tmp_75())
+            (self._tmp_77())
             and (a := self.star_named_expression())
             and (b := self.expect(","))
             and (self.for_if_clauses())
@@ -3708,7 +3715,7 @@ class XonshParser(Parser):
         if (a := self.expect("/")) and (self.expect(",")):
             return self.raise_syntax_error_known_location("at least one argument must precede /", a)
         self._reset(mark)
-        if (self._tmp_77()) and (self.repeated(self.param_maybe_default),) and (a := self.expect("/")):
+        if (self._tmp_79()) and (self.repeated(self.param_maybe_default),) and (a := self.expect("/")):
             return self.raise_syntax_error_known_location("/ may appear only once", a)
         self._reset(mark)
         if (
@@ -3732,10 +3739,10 @@ class XonshParser(Parser):
             return self.raise_syntax_error_known_range("Function parameters cannot be parenthesized", a, b)
         self._reset(mark)
         if (
-            (self._tmp_77(),)
+            (self._tmp_79(),)
             and (self.repeated(self.param_maybe_default),)
             and (self.expect("*"))
-            and (self._tmp_79())
+            and (self._tmp_81())
             and (self.repeated(self.param_maybe_default),)
             and (a := self.expect("/"))
         ):
@@ -3749,7 +3756,7 @@ class XonshParser(Parser):
     def invalid_default(self) -> Any | None:
         # invalid_default: '=' &(')' | ',')
         mark = self._mark()
-        if (a := self.expect("=")) and (self.positive_lookahead(self._tmp_80)):
+        if (a := self.expect("=")) and (self.positive_lookahead(self._tmp_82)):
             return self.raise_syntax_error_known_location("expected default value expression", a)
         self._reset(mark)
         return None
@@ -3757,7 +3764,7 @@ class XonshParser(Parser):
     def invalid_star_etc(self) -> Any | None:
         # invalid_star_etc: '*' (')' | ',' (')' | '**')) | '*' ',' TYPE_COMMENT | '*' param '=' | '*' (param_no_default | ',') param_maybe_default* '*' (param_no_default | ',')
         mark = self._mark()
-        if (a := self.expect("*")) and (self._tmp_81()):
+        if (a := self.expect("*")) and (self._tmp_83()):
             return self.raise_syntax_error_known_location("named arguments must follow bare *", a)
         self._reset(mark)
         if (self.expect("*")) and (self.expect(",")) and (self.token("TYPE_COMMENT")):
@@ -3770,10 +3777,10 @@ class XonshParser(Parser):
         self._reset(mark)
         if (
             (self.expect("*"))
-            and (self._tmp_82())
+            and (self._tmp_84())
             and (self.repeated(self.param_maybe_default),)
             and (a := self.expect("*"))
-            and (self._tmp_82())
+            and (self._tmp_84())
         ):
             return self.raise_syntax_error_known_location("* argument may appear only once", a)
         self._reset(mark)
@@ -3788,7 +3795,7 @@ class XonshParser(Parser):
         if (self.expect("**")) and (self.param()) and (self.expect(",")) and (a := self.param()):
             return self.raise_syntax_error_known_location("arguments cannot follow var-keyword argument", a)
         self._reset(mark)
-        if (self.expect("**")) and (self.param()) and (self.expect(",")) and (a := self._tmp_84()):
+        if (self.expect("**")) and (self.param()) and (self.expect(",")) and (a := self._tmp_86()):
             return self.raise_syntax_error_known_location("arguments cannot follow var-keyword argument", a)
         self._reset(mark)
         return None
@@ -3810,7 +3817,7 @@ class XonshParser(Parser):
         if (a := self.expect("/")) and (self.expect(",")):
             return self.raise_syntax_error_known_location("at least one argument must precede /", a)
         self._reset(mark)
-        if (self._tmp_85()) and (self.repeated(self.lambda_param_maybe_default),) and (a := self.expect("/")):
+        if (self._tmp_87()) and (self.repeated(self.lambda_param_maybe_default),) and (a := self.expect("/")):
             return self.raise_syntax_error_known_location("/ may appear only once", a)
         self._reset(mark)
         if (
@@ -3836,10 +3843,10 @@ class XonshParser(Parser):
             )
         self._reset(mark)
         if (
-            (self._tmp_85(),)
+            (self._tmp_87(),)
             and (self.repeated(self.lambda_param_maybe_default),)
             and (self.expect("*"))
-            and (self._tmp_87())
+            and (self._tmp_89())
             and (self.repeated(self.lambda_param_maybe_default),)
             and (a := self.expect("/"))
         ):
@@ -3868,7 +3875,7 @@ class XonshParser(Parser):
     def invalid_lambda_star_etc(self) -> None:
         # invalid_lambda_star_etc: '*' (':' | ',' (':' | '**')) | '*' lambda_param '=' | '*' (lambda_param_no_default | ',') lambda_param_maybe_default* '*' (lambda_param_no_default | ',')
         mark = self._mark()
-        if (self.expect("*")) and (self._tmp_88()):
+        if (self.expect("*")) and (self._tmp_90()):
             return self.raise_syntax_error("named arguments must follow bare *")
         self._reset(mark)
         if (self.expect("*")) and (self.lambda_param()) and (a := self.expect("=")):
@@ -3878,10 +3885,10 @@ class XonshParser(Parser):
         self._reset(mark)
         if (
             (self.expect("*"))
-            and (self._tmp_89())
+            and (self._tmp_91())
             and (self.repeated(self.lambda_param_maybe_default),)
             and (a := self.expect("*"))
-            and (self._tmp_89())
+            and (self._tmp_91())
         ):
             return self.raise_syntax_error_known_location("* argument may appear only once", a)
         self._reset(mark)
@@ -3901,7 +3908,7 @@ class XonshParser(Parser):
         ):
             return self.raise_syntax_error_known_location("arguments cannot follow var-keyword argument", a)
         self._reset(mark)
-        if (self.expect("**")) and (self.lambda_param()) and (self.expect(",")) and (a := self._tmp_84()):
+        if (self.expect("**")) and (self.lambda_param()) and (self.expect(",")) and (a := self._tmp_86()):
             return self.raise_syntax_error_known_location("arguments cannot follow var-keyword argument", a)
         self._reset(mark)
         return None
@@ -3981,7 +3988,7 @@ class XonshParser(Parser):
         if (
             (self.expect("async"),)
             and (self.expect("with"))
-            and (self.gathered(self._tmp_93, self.expect, ","))
+            and (self.gathered(self._tmp_95, self.expect, ","))
             and (self.expect_forced(self.expect(":"), "':'"))
         ):
             return None
@@ -3990,7 +3997,7 @@ class XonshParser(Parser):
             (self.expect("async"),)
             and (self.expect("with"))
             and (self.expect("("))
-            and (self.gathered(self._tmp_94, self.expect, ","))
+            and (self.gathered(self._tmp_96, self.expect, ","))
             and (self.expect(","),)
             and (self.expect(")"))
             and (self.expect_forced(self.expect(":"), "':'"))
@@ -4005,7 +4012,7 @@ class XonshParser(Parser):
         if (
             (self.expect("async"),)
             and (a := self.expect("with"))
-            and (self.gathered(self._tmp_93, self.expect, ","))
+            and (self.gathered(self._tmp_95, self.expect, ","))
             and (self.expect(":"))
             and (self.token("NEWLINE"))
             and (self.negative_lookahead(self.token, "INDENT"))
@@ -4018,7 +4025,7 @@ class XonshParser(Parser):
             (self.expect("async"),)
             and (a := self.expect("with"))
             and (self.expect("("))
-            and (self.gathered(self._tmp_94, self.expect, ","))
+            and (self.gathered(self._tmp_96, self.expect, ","))
             and (self.expect(","),)
             and (self.expect(")"))
             and (self.expect(":"))
@@ -4048,7 +4055,7 @@ class XonshParser(Parser):
             (self.expect("try"))
             and (self.expect(":"))
             and (self.block())
-            and (self.negative_lookahead(self._tmp_97))
+            and (self.negative_lookahead(self._tmp_99))
         ):
             return self.raise_syntax_error("expected 'except' or 'finally' block")
         self._reset(mark)
@@ -4060,7 +4067,7 @@ class XonshParser(Parser):
             and (a := self.expect("except"))
             and (b := self.expect("*"))
             and (self.expression())
-            and (self._tmp_98(),)
+            and (self._tmp_100(),)
             and (self.expect(":"))
         ):
             return self.raise_syntax_error_known_range(
@@ -4073,7 +4080,7 @@ class XonshParser(Parser):
             and (self.repeated(self.block),)
             and (self.repeated(self.except_star_block))
             and (a := self.expect("except"))
-            and (self._tmp_99(),)
+            and (self._tmp_101(),)
             and (self.expect(":"))
         ):
             return self.raise_syntax_error_known_location(
@@ -4091,7 +4098,7 @@ class XonshParser(Parser):
             and (a := self.expression())
             and (self.expect(","))
             and (self.expressions())
-            and (self._tmp_98(),)
+            and (self._tmp_100(),)
             and (self.expect(":"))
         ):
             return self.raise_syntax_error_starting_from("multiple exception types must be parenthesized", a)
@@ -4100,7 +4107,7 @@ class XonshParser(Parser):
             (self.expect("except"))
             and (self.expect("*"),)
             and (self.expression())
-            and (self._tmp_98(),)
+            and (self._tmp_100(),)
             and (self.token("NEWLINE"))
         ):
             return self.raise_syntax_error("expected ':'")
@@ -4108,7 +4115,7 @@ class XonshParser(Parser):
         if (self.expect("except")) and (self.expect("*"),) and (self.token("NEWLINE")):
             return self.raise_syntax_error("expected ':'")
         self._reset(mark)
-        if (self.expect("except")) and (self.expect("*")) and (self._tmp_102()):
+        if (self.expect("except")) and (self.expect("*")) and (self._tmp_104()):
             return self.raise_syntax_error("expected one or more exception types")
         self._reset(mark)
         return None
@@ -4134,7 +4141,7 @@ class XonshParser(Parser):
         if (
             (a := self.expect("except"))
             and (self.expression())
-            and (self._tmp_98(),)
+            and (self._tmp_100(),)
             and (self.expect(":"))
             and (self.token("NEWLINE"))
             and (self.negative_lookahead(self.token, "INDENT"))
@@ -4162,7 +4169,7 @@ class XonshParser(Parser):
             (a := self.expect("except"))
             and (self.expect("*"))
             and (self.expression())
-            and (self._tmp_98(),)
+            and (self._tmp_100(),)
             and (self.expect(":"))
             and (self.token("NEWLINE"))
             and (self.negative_lookahead(self.token, "INDENT"))
@@ -4252,7 +4259,7 @@ class XonshParser(Parser):
         # invalid_class_argument_pattern: [positional_patterns ','] keyword_patterns ',' positional_patterns
         mark = self._mark()
         if (
-            (self._tmp_105(),)
+            (self._tmp_107(),)
             and (self.keyword_patterns())
             and (self.expect(","))
             and (a := self.positional_patterns())
@@ -4373,7 +4380,7 @@ class XonshParser(Parser):
             and (self.expect("("))
             and (self.params(),)
             and (self.expect(")"))
-            and (self._tmp_106(),)
+            and (self._tmp_108(),)
             and (self.expect(":"))
             and (self.token("NEWLINE"))
             and (self.negative_lookahead(self.token, "INDENT"))
@@ -4391,7 +4398,7 @@ class XonshParser(Parser):
             (self.expect("class"))
             and (self.name())
             and (self.type_params(),)
-            and (self._tmp_107(),)
+            and (self._tmp_109(),)
             and (self.token("NEWLINE"))
         ):
             return self.raise_syntax_error("expected ':'")
@@ -4400,7 +4407,7 @@ class XonshParser(Parser):
             (a := self.expect("class"))
             and (self.name())
             and (self.type_params(),)
-            and (self._tmp_107(),)
+            and (self._tmp_109(),)
             and (self.expect(":"))
             and (self.token("NEWLINE"))
             and (self.negative_lookahead(self.token, "INDENT"))
@@ -4427,7 +4434,7 @@ class XonshParser(Parser):
                 "cannot use a starred expression in a dictionary value", a
             )
         self._reset(mark)
-        if (self.expression()) and (a := self.expect(":")) and (self.positive_lookahead(self._tmp_109)):
+        if (self.expression()) and (a := self.expect(":")) and (self.positive_lookahead(self._tmp_111)):
             return self.raise_syntax_error_known_location(
                 "expression expected after dictionary key and ':'", a
             )
@@ -4449,7 +4456,7 @@ class XonshParser(Parser):
                 "cannot use a starred expression in a dictionary value", a
             )
         self._reset(mark)
-        if (self.expression()) and (a := self.expect(":")) and (self.positive_lookahead(self._tmp_109)):
+        if (self.expression()) and (a := self.expect(":")) and (self.positive_lookahead(self._tmp_111)):
             return self.raise_syntax_error_known_location(
                 "expression expected after dictionary key and ':'", a
             )
@@ -4492,14 +4499,14 @@ class XonshParser(Parser):
         if (self.expect("{")) and (self.negative_lookahead(self.annotated_rhs)):
             return self.raise_syntax_error_on_next_token("f-string: expecting a valid expression after '{'")
         self._reset(mark)
-        if (self.expect("{")) and (self.annotated_rhs()) and (self.negative_lookahead(self._tmp_111)):
+        if (self.expect("{")) and (self.annotated_rhs()) and (self.negative_lookahead(self._tmp_113)):
             return self.raise_syntax_error_on_next_token("f-string: expecting '=', or '!', or ':', or '}'")
         self._reset(mark)
         if (
             (self.expect("{"))
             and (self.annotated_rhs())
             and (self.expect("="))
-            and (self.negative_lookahead(self._tmp_112))
+            and (self.negative_lookahead(self._tmp_114))
         ):
             return self.raise_syntax_error_on_next_token("f-string: expecting '!', or ':', or '}'")
         self._reset(mark)
@@ -4516,8 +4523,8 @@ class XonshParser(Parser):
             (self.expect("{"))
             and (self.annotated_rhs())
             and (self.expect("="),)
-            and (self._tmp_113(),)
-            and (self.negative_lookahead(self._tmp_114))
+            and (self._tmp_115(),)
+            and (self.negative_lookahead(self._tmp_116))
         ):
             return self.raise_syntax_error_on_next_token("f-string: expecting ':' or '}'")
         self._reset(mark)
@@ -4525,7 +4532,7 @@ class XonshParser(Parser):
             (self.expect("{"))
             and (self.annotated_rhs())
             and (self.expect("="),)
-            and (self._tmp_113(),)
+            and (self._tmp_115(),)
             and (self.expect(":"))
             and (self.repeated(self.fstring_format_spec),)
             and (self.negative_lookahead(self.expect, "}"))
@@ -4536,7 +4543,7 @@ class XonshParser(Parser):
             (self.expect("{"))
             and (self.annotated_rhs())
             and (self.expect("="),)
-            and (self._tmp_113(),)
+            and (self._tmp_115(),)
             and (self.negative_lookahead(self.expect, "}"))
         ):
             return self.raise_syntax_error_on_next_token("f-string: expecting '}'")
@@ -4546,7 +4553,7 @@ class XonshParser(Parser):
     def invalid_conversion_character(self) -> Any | None:
         # invalid_conversion_character: '!' &(':' | '}') | '!' !NAME
         mark = self._mark()
-        if (self.expect("!")) and (self.positive_lookahead(self._tmp_114)):
+        if (self.expect("!")) and (self.positive_lookahead(self._tmp_116)):
             return self.raise_syntax_error_on_next_token("f-string: missing conversion character")
         self._reset(mark)
         if (self.expect("!")) and (self.negative_lookahead(self.name)):
@@ -4736,7 +4743,7 @@ class XonshParser(Parser):
     def _tmp_32(self) -> Any | None:
         # _tmp_32: ('or' | '||') conjunction
         mark = self._mark()
-        if (self._tmp_118()) and (c := self.conjunction()):
+        if (self._tmp_120()) and (c := self.conjunction()):
             return c
         self._reset(mark)
         return None
@@ -4744,7 +4751,7 @@ class XonshParser(Parser):
     def _tmp_33(self) -> Any | None:
         # _tmp_33: ('and' | '&&') inversion
         mark = self._mark()
-        if (self._tmp_119()) and (c := self.inversion()):
+        if (self._tmp_121()) and (c := self.inversion()):
             return c
         self._reset(mark)
         return None
@@ -4796,44 +4803,51 @@ class XonshParser(Parser):
         )
 
     def _tmp_42(self) -> Any | None:
-        # _tmp_42: slice | starred_expression
+        # _tmp_42: '{' | '${'
+        return self.seq_alts(
+            (self.expect, "{"),
+            (self.expect, "${"),
+        )
+
+    def _tmp_44(self) -> Any | None:
+        # _tmp_44: slice | starred_expression
         return self.seq_alts(
             self.slice,
             self.starred_expression,
         )
 
-    def _tmp_43(self) -> Any | None:
-        # _tmp_43: ':' expression?
+    def _tmp_45(self) -> Any | None:
+        # _tmp_45: ':' expression?
         mark = self._mark()
         if (self.expect(":")) and (d := self.expression(),):
             return d
         self._reset(mark)
         return None
 
-    def _tmp_44(self) -> Any | None:
-        # _tmp_44: STRING | FSTRING_START
+    def _tmp_46(self) -> Any | None:
+        # _tmp_46: STRING | FSTRING_START
         return self.seq_alts(
             (self.token, "STRING"),
             (self.token, "FSTRING_START"),
         )
 
-    def _tmp_45(self) -> Any | None:
-        # _tmp_45: ptuple | group | genexp
+    def _tmp_47(self) -> Any | None:
+        # _tmp_47: ptuple | group | genexp
         return self.seq_alts(
             self.ptuple,
             self.group,
             self.genexp,
         )
 
-    def _tmp_46(self) -> Any | None:
-        # _tmp_46: plist | listcomp
+    def _tmp_48(self) -> Any | None:
+        # _tmp_48: plist | listcomp
         return self.seq_alts(
             self.plist,
             self.listcomp,
         )
 
-    def _tmp_47(self) -> Any | None:
-        # _tmp_47: dict | set | dictcomp | setcomp
+    def _tmp_49(self) -> Any | None:
+        # _tmp_49: dict | set | dictcomp | setcomp
         return self.seq_alts(
             self.dict,
             self.set,
@@ -4841,22 +4855,22 @@ class XonshParser(Parser):
             self.setcomp,
         )
 
-    def _tmp_48(self) -> Any | None:
-        # _tmp_48: yield_expr | named_expression
+    def _tmp_50(self) -> Any | None:
+        # _tmp_50: yield_expr | named_expression
         return self.seq_alts(
             self.yield_expr,
             self.named_expression,
         )
 
-    def _tmp_49(self) -> Any | None:
-        # _tmp_49: fstring | STRING
+    def _tmp_51(self) -> Any | None:
+        # _tmp_51: fstring | STRING
         return self.seq_alts(
             self.fstring,
             (self.token, "STRING"),
         )
 
-    def _tmp_50(self) -> Any | None:
-        # _tmp_50: star_named_expression ',' star_named_expressions?
+    def _tmp_52(self) -> Any | None:
+        # _tmp_52: star_named_expression ',' star_named_expressions?
         mark = self._mark()
         if (
             (y := self.star_named_expression())
@@ -4867,16 +4881,16 @@ class XonshParser(Parser):
         self._reset(mark)
         return None
 
-    def _tmp_51(self) -> Any | None:
-        # _tmp_51: 'if' disjunction
+    def _tmp_53(self) -> Any | None:
+        # _tmp_53: 'if' disjunction
         mark = self._mark()
         if (self.expect("if")) and (z := self.disjunction()):
             return z
         self._reset(mark)
         return None
 
-    def _tmp_53(self) -> Any | None:
-        # _tmp_53: assignment_expression | expression !':='
+    def _tmp_55(self) -> Any | None:
+        # _tmp_55: assignment_expression | expression !':='
         mark = self._mark()
         if assignment_expression := self.assignment_expression():
             return assignment_expression
@@ -4886,51 +4900,51 @@ class XonshParser(Parser):
         self._reset(mark)
         return None
 
-    def _tmp_55(self) -> Any | None:
-        # _tmp_55: starred_expression | (assignment_expression | expression !':=') !'='
+    def _tmp_57(self) -> Any | None:
+        # _tmp_57: starred_expression | (assignment_expression | expression !':=') !'='
         mark = self._mark()
         if starred_expression := self.starred_expression():
             return starred_expression
         self._reset(mark)
-        if (_tmp_53 := self._tmp_53()) and (self.negative_lookahead(self.expect, "=")):
-            return _tmp_53
+        if (_tmp_55 := self._tmp_55()) and (self.negative_lookahead(self.expect, "=")):
+            return _tmp_55
         self._reset(mark)
         return None
 
-    def _tmp_56(self) -> Any | None:
-        # _tmp_56: ',' kwargs
+    def _tmp_58(self) -> Any | None:
+        # _tmp_58: ',' kwargs
         mark = self._mark()
         if (self.expect(",")) and (k := self.kwargs()):
             return k
         self._reset(mark)
         return None
 
-    def _tmp_57(self) -> Any | None:
-        # _tmp_57: ',' star_target
+    def _tmp_59(self) -> Any | None:
+        # _tmp_59: ',' star_target
         mark = self._mark()
         if (self.expect(",")) and (c := self.star_target()):
             return c
         self._reset(mark)
         return None
 
-    def _tmp_59(self) -> Any | None:
-        # _tmp_59: !'*' star_target
+    def _tmp_61(self) -> Any | None:
+        # _tmp_61: !'*' star_target
         mark = self._mark()
         if (self.negative_lookahead(self.expect, "*")) and (star_target := self.star_target()):
             return star_target
         self._reset(mark)
         return None
 
-    def _tmp_60(self) -> Any | None:
-        # _tmp_60: NEWLINE INDENT
+    def _tmp_62(self) -> Any | None:
+        # _tmp_62: NEWLINE INDENT
         mark = self._mark()
         if (_newline := self.token("NEWLINE")) and (_indent := self.token("INDENT")):
             return [_newline, _indent]
         self._reset(mark)
         return None
 
-    def _tmp_61(self) -> Any | None:
-        # _tmp_61: args | expression for_if_clauses
+    def _tmp_63(self) -> Any | None:
+        # _tmp_63: args | expression for_if_clauses
         mark = self._mark()
         if args := self.args():
             return args
@@ -4940,39 +4954,39 @@ class XonshParser(Parser):
         self._reset(mark)
         return None
 
-    def _tmp_62(self) -> Any | None:
-        # _tmp_62: args ','
+    def _tmp_64(self) -> Any | None:
+        # _tmp_64: args ','
         mark = self._mark()
         if (args := self.args()) and (literal := self.expect(",")):
             return [args, literal]
         self._reset(mark)
         return None
 
-    def _tmp_63(self) -> Any | None:
-        # _tmp_63: ',' | ')'
+    def _tmp_65(self) -> Any | None:
+        # _tmp_65: ',' | ')'
         return self.seq_alts(
             (self.expect, ","),
             (self.expect, ")"),
         )
 
-    def _tmp_64(self) -> Any | None:
-        # _tmp_64: 'True' | 'False' | 'None'
+    def _tmp_66(self) -> Any | None:
+        # _tmp_66: 'True' | 'False' | 'None'
         return self.seq_alts(
             (self.expect, "True"),
             (self.expect, "False"),
             (self.expect, "None"),
         )
 
-    def _tmp_65(self) -> Any | None:
-        # _tmp_65: NAME '='
+    def _tmp_67(self) -> Any | None:
+        # _tmp_67: NAME '='
         mark = self._mark()
         if (name := self.name()) and (literal := self.expect("=")):
             return [name, literal]
         self._reset(mark)
         return None
 
-    def _tmp_66(self) -> Any | None:
-        # _tmp_66: NAME STRING | SOFT_KEYWORD
+    def _tmp_68(self) -> Any | None:
+        # _tmp_68: NAME STRING | SOFT_KEYWORD
         mark = self._mark()
         if (name := self.name()) and (_string := self.token("STRING")):
             return [name, _string]
@@ -4982,29 +4996,29 @@ class XonshParser(Parser):
         self._reset(mark)
         return None
 
-    def _tmp_67(self) -> Any | None:
-        # _tmp_67: 'else' | ':'
+    def _tmp_69(self) -> Any | None:
+        # _tmp_69: 'else' | ':'
         return self.seq_alts(
             (self.expect, "else"),
             (self.expect, ":"),
         )
 
-    def _tmp_68(self) -> Any | None:
-        # _tmp_68: FSTRING_MIDDLE | fstring_replacement_field
+    def _tmp_70(self) -> Any | None:
+        # _tmp_70: FSTRING_MIDDLE | fstring_replacement_field
         return self.seq_alts(
             (self.token, "FSTRING_MIDDLE"),
             self.fstring_replacement_field,
         )
 
-    def _tmp_69(self) -> Any | None:
-        # _tmp_69: '=' | ':='
+    def _tmp_71(self) -> Any | None:
+        # _tmp_71: '=' | ':='
         return self.seq_alts(
             (self.expect, "="),
             (self.expect, ":="),
         )
 
-    def _tmp_70(self) -> Any | None:
-        # _tmp_70: plist | ptuple | genexp | 'True' | 'None' | 'False'
+    def _tmp_72(self) -> Any | None:
+        # _tmp_72: plist | ptuple | genexp | 'True' | 'None' | 'False'
         return self.seq_alts(
             self.plist,
             self.ptuple,
@@ -5014,187 +5028,187 @@ class XonshParser(Parser):
             (self.expect, "False"),
         )
 
-    def _tmp_72(self) -> Any | None:
-        # _tmp_72: star_targets '='
+    def _tmp_74(self) -> Any | None:
+        # _tmp_74: star_targets '='
         mark = self._mark()
         if (star_targets := self.star_targets()) and (literal := self.expect("=")):
             return [star_targets, literal]
         self._reset(mark)
         return None
 
-    def _tmp_74(self) -> Any | None:
-        # _tmp_74: '[' | '(' | '{'
+    def _tmp_76(self) -> Any | None:
+        # _tmp_76: '[' | '(' | '{'
         return self.seq_alts(
             (self.expect, "["),
             (self.expect, "("),
             (self.expect, "{"),
         )
 
-    def _tmp_75(self) -> Any | None:
-        # _tmp_75: '[' | '{'
+    def _tmp_77(self) -> Any | None:
+        # _tmp_77: '[' | '{'
         return self.seq_alts(
             (self.expect, "["),
             (self.expect, "{"),
         )
 
-    def _tmp_77(self) -> Any | None:
-        # _tmp_77: slash_no_default | slash_with_default
+    def _tmp_79(self) -> Any | None:
+        # _tmp_79: slash_no_default | slash_with_default
         return self.seq_alts(
             self.slash_no_default,
             self.slash_with_default,
         )
 
-    def _tmp_79(self) -> Any | None:
-        # _tmp_79: ',' | param_no_default
+    def _tmp_81(self) -> Any | None:
+        # _tmp_81: ',' | param_no_default
         return self.seq_alts(
             (self.expect, ","),
             self.param_no_default,
         )
 
-    def _tmp_80(self) -> Any | None:
-        # _tmp_80: ')' | ','
+    def _tmp_82(self) -> Any | None:
+        # _tmp_82: ')' | ','
         return self.seq_alts(
             (self.expect, ")"),
             (self.expect, ","),
         )
 
-    def _tmp_81(self) -> Any | None:
-        # _tmp_81: ')' | ',' (')' | '**')
+    def _tmp_83(self) -> Any | None:
+        # _tmp_83: ')' | ',' (')' | '**')
         mark = self._mark()
         if literal := self.expect(")"):
             return literal
         self._reset(mark)
-        if (literal := self.expect(",")) and (_tmp_121 := self._tmp_121()):
-            return [literal, _tmp_121]
+        if (literal := self.expect(",")) and (_tmp_123 := self._tmp_123()):
+            return [literal, _tmp_123]
         self._reset(mark)
         return None
 
-    def _tmp_82(self) -> Any | None:
-        # _tmp_82: param_no_default | ','
+    def _tmp_84(self) -> Any | None:
+        # _tmp_84: param_no_default | ','
         return self.seq_alts(
             self.param_no_default,
             (self.expect, ","),
         )
 
-    def _tmp_84(self) -> Any | None:
-        # _tmp_84: '*' | '**' | '/'
+    def _tmp_86(self) -> Any | None:
+        # _tmp_86: '*' | '**' | '/'
         return self.seq_alts(
             (self.expect, "*"),
             (self.expect, "**"),
             (self.expect, "/"),
         )
 
-    def _tmp_85(self) -> Any | None:
-        # _tmp_85: lambda_slash_no_default | lambda_slash_with_default
+    def _tmp_87(self) -> Any | None:
+        # _tmp_87: lambda_slash_no_default | lambda_slash_with_default
         return self.seq_alts(
             self.lambda_slash_no_default,
             self.lambda_slash_with_default,
         )
 
-    def _tmp_87(self) -> Any | None:
-        # _tmp_87: ',' | lambda_param_no_default
+    def _tmp_89(self) -> Any | None:
+        # _tmp_89: ',' | lambda_param_no_default
         return self.seq_alts(
             (self.expect, ","),
             self.lambda_param_no_default,
         )
 
-    def _tmp_88(self) -> Any | None:
-        # _tmp_88: ':' | ',' (':' | '**')
+    def _tmp_90(self) -> Any | None:
+        # _tmp_90: ':' | ',' (':' | '**')
         mark = self._mark()
         if literal := self.expect(":"):
             return literal
         self._reset(mark)
-        if (literal := self.expect(",")) and (_tmp_122 := self._tmp_122()):
-            return [literal, _tmp_122]
+        if (literal := self.expect(",")) and (_tmp_124 := self._tmp_124()):
+            return [literal, _tmp_124]
         self._reset(mark)
         return None
 
-    def _tmp_89(self) -> Any | None:
-        # _tmp_89: lambda_param_no_default | ','
+    def _tmp_91(self) -> Any | None:
+        # _tmp_91: lambda_param_no_default | ','
         return self.seq_alts(
             self.lambda_param_no_default,
             (self.expect, ","),
         )
 
-    def _tmp_93(self) -> Any | None:
-        # _tmp_93: expression ['as' star_target]
+    def _tmp_95(self) -> Any | None:
+        # _tmp_95: expression ['as' star_target]
         mark = self._mark()
-        if (expression := self.expression()) and (opt := self._tmp_123(),):
+        if (expression := self.expression()) and (opt := self._tmp_125(),):
             return [expression, opt]
         self._reset(mark)
         return None
 
-    def _tmp_94(self) -> Any | None:
-        # _tmp_94: expressions ['as' star_target]
+    def _tmp_96(self) -> Any | None:
+        # _tmp_96: expressions ['as' star_target]
         mark = self._mark()
-        if (expressions := self.expressions()) and (opt := self._tmp_123(),):
+        if (expressions := self.expressions()) and (opt := self._tmp_125(),):
             return [expressions, opt]
         self._reset(mark)
         return None
 
-    def _tmp_97(self) -> Any | None:
-        # _tmp_97: 'except' | 'finally'
+    def _tmp_99(self) -> Any | None:
+        # _tmp_99: 'except' | 'finally'
         return self.seq_alts(
             (self.expect, "except"),
             (self.expect, "finally"),
         )
 
-    def _tmp_98(self) -> Any | None:
-        # _tmp_98: 'as' NAME
+    def _tmp_100(self) -> Any | None:
+        # _tmp_100: 'as' NAME
         mark = self._mark()
         if (literal := self.expect("as")) and (name := self.name()):
             return [literal, name]
         self._reset(mark)
         return None
 
-    def _tmp_99(self) -> Any | None:
-        # _tmp_99: expression ['as' NAME]
+    def _tmp_101(self) -> Any | None:
+        # _tmp_101: expression ['as' NAME]
         mark = self._mark()
-        if (expression := self.expression()) and (opt := self._tmp_98(),):
+        if (expression := self.expression()) and (opt := self._tmp_100(),):
             return [expression, opt]
         self._reset(mark)
         return None
 
-    def _tmp_102(self) -> Any | None:
-        # _tmp_102: NEWLINE | ':'
+    def _tmp_104(self) -> Any | None:
+        # _tmp_104: NEWLINE | ':'
         return self.seq_alts(
             (self.token, "NEWLINE"),
             (self.expect, ":"),
         )
 
-    def _tmp_105(self) -> Any | None:
-        # _tmp_105: positional_patterns ','
+    def _tmp_107(self) -> Any | None:
+        # _tmp_107: positional_patterns ','
         mark = self._mark()
         if (positional_patterns := self.positional_patterns()) and (literal := self.expect(",")):
             return [positional_patterns, literal]
         self._reset(mark)
         return None
 
-    def _tmp_106(self) -> Any | None:
-        # _tmp_106: '->' expression
+    def _tmp_108(self) -> Any | None:
+        # _tmp_108: '->' expression
         mark = self._mark()
         if (literal := self.expect("->")) and (expression := self.expression()):
             return [literal, expression]
         self._reset(mark)
         return None
 
-    def _tmp_107(self) -> Any | None:
-        # _tmp_107: '(' arguments? ')'
+    def _tmp_109(self) -> Any | None:
+        # _tmp_109: '(' arguments? ')'
         mark = self._mark()
         if (literal := self.expect("(")) and (opt := self.arguments(),) and (literal_1 := self.expect(")")):
             return [literal, opt, literal_1]
         self._reset(mark)
         return None
 
-    def _tmp_109(self) -> Any | None:
-        # _tmp_109: '}' | ','
+    def _tmp_111(self) -> Any | None:
+        # _tmp_111: '}' | ','
         return self.seq_alts(
             (self.expect, "}"),
             (self.expect, ","),
         )
 
-    def _tmp_111(self) -> Any | None:
-        # _tmp_111: '=' | '!' | ':' | '}'
+    def _tmp_113(self) -> Any | None:
+        # _tmp_113: '=' | '!' | ':' | '}'
         return self.seq_alts(
             (self.expect, "="),
             (self.expect, "!"),
@@ -5202,59 +5216,59 @@ class XonshParser(Parser):
             (self.expect, "}"),
         )
 
-    def _tmp_112(self) -> Any | None:
-        # _tmp_112: '!' | ':' | '}'
+    def _tmp_114(self) -> Any | None:
+        # _tmp_114: '!' | ':' | '}'
         return self.seq_alts(
             (self.expect, "!"),
             (self.expect, ":"),
             (self.expect, "}"),
         )
 
-    def _tmp_113(self) -> Any | None:
-        # _tmp_113: '!' NAME
+    def _tmp_115(self) -> Any | None:
+        # _tmp_115: '!' NAME
         mark = self._mark()
         if (literal := self.expect("!")) and (name := self.name()):
             return [literal, name]
         self._reset(mark)
         return None
 
-    def _tmp_114(self) -> Any | None:
-        # _tmp_114: ':' | '}'
+    def _tmp_116(self) -> Any | None:
+        # _tmp_116: ':' | '}'
         return self.seq_alts(
             (self.expect, ":"),
             (self.expect, "}"),
         )
 
-    def _tmp_118(self) -> Any | None:
-        # _tmp_118: 'or' | '||'
+    def _tmp_120(self) -> Any | None:
+        # _tmp_120: 'or' | '||'
         return self.seq_alts(
             (self.expect, "or"),
             (self.expect, "||"),
         )
 
-    def _tmp_119(self) -> Any | None:
-        # _tmp_119: 'and' | '&&'
+    def _tmp_121(self) -> Any | None:
+        # _tmp_121: 'and' | '&&'
         return self.seq_alts(
             (self.expect, "and"),
             (self.expect, "&&"),
         )
 
-    def _tmp_121(self) -> Any | None:
-        # _tmp_121: ')' | '**'
+    def _tmp_123(self) -> Any | None:
+        # _tmp_123: ')' | '**'
         return self.seq_alts(
             (self.expect, ")"),
             (self.expect, "**"),
         )
 
-    def _tmp_122(self) -> Any | None:
-        # _tmp_122: ':' | '**'
+    def _tmp_124(self) -> Any | None:
+        # _tmp_124: ':' | '**'
         return self.seq_alts(
             (self.expect, ":"),
             (self.expect, "**"),
         )
 
-    def _tmp_123(self) -> Any | None:
-        # _tmp_123: 'as' star_target
+    def _tmp_125(self) -> Any | None:
+        # _tmp_125: 'as' star_target
         mark = self._mark()
         if (literal := self.expect("as")) and (star_target := self.star_target()):
             return [literal, star_target]
